@@ -1769,10 +1769,13 @@ namespace adept {
       ExpressionSize<rank> dims, offs;
       dims = dimensions();
       offs = offset();
+      // Number of times each dimension of the current array is used
+      ExpressionSize<rank> n_used(0);
       for (int i = 0; i < rank; ++i) {
 	if (idim[i] >= 0 && idim[i] < rank) {
 	  new_dims[i] = dims[idim[i]];
 	  new_offset[i] = offs[idim[i]];
+	  ++n_used[idim[i]];
 	}
 	else {
 	  throw invalid_dimension("Dimensions must be in range 0 to rank-1 in permute"
@@ -1780,7 +1783,9 @@ namespace adept {
 	}
       }
       for (int i = 0; i < rank; ++i) {
-	if (new_dims[i] == 0) {
+	// A repeated dimension means another one is missing, and the
+	// resulting array would address memory outside this one
+	if (n_used[i] != 1 || new_dims[i] == 0) {
 	  throw invalid_dimension("Missing dimension in permute"
 				  ADEPT_EXCEPTION_LOCATION);
 	}
